@@ -134,6 +134,14 @@ func (r *Runner) Issue(a ClientAction) {
 		r.Call("forcestop", func(ctx context.Context) error { return eng.Stop(ctx, PipelineID, true) })
 	case "stopall":
 		r.Call("stopall", func(ctx context.Context) error { w.StopAll(ctx); return nil })
+	case "stopallwait":
+		// what the runtime does on shutdown: graceful StopAll, wait for the pipelines, wait for the persister
+		r.Call("stopallwait", func(ctx context.Context) error {
+			w.StopAll(ctx)
+			err := eng.WaitPipeline(PipelineID)
+			w.Connectors.WaitPersisted()
+			return err
+		})
 	case "start":
 		r.Call("start", func(ctx context.Context) error { return eng.Start(ctx, PipelineID) })
 	case "wait":
@@ -332,6 +340,22 @@ func RunCaseOpts(c *Case, pick func(n int) int, o RunOpts) *Result {
 	res.Steps = step
 	c.Choices = w.Sched.Choices
 	w.Sched.SetFree()
+	// The in-memory status changes before the status write is applied to the store and logged:
+	// let a write that is in flight finish, so that the history ends with the status the loop saw.
+	for deadline := time.Now().Add(2 * time.Second); time.Now().Before(deadline); time.Sleep(200 * time.Microsecond) {
+		begun, done := 0, 0
+		for _, e := range w.Log.Snapshot() {
+			switch e.Kind {
+			case EvStatusBegin:
+				begun++
+			case EvStatus:
+				done++
+			}
+		}
+		if begun == done {
+			break
+		}
+	}
 	if !res.Wedged {
 		// let the last flush land so that FinalStore is meaningful
 		done := make(chan struct{})
